@@ -4,6 +4,8 @@
 -/
 import Scc.PMoves.ProofsBackends
 
+set_option autoImplicit false
+
 namespace Scc.PMoves.X86
 
 /-- the content of the location with code `x` -/
@@ -235,9 +237,6 @@ theorem sim_step {V : Type} (f : Bool) (op : AOp) (a : (Nat → V) × V) (m : MS
 
 /-! ## `containsSpillEdge` finds every spill-to-spill move -/
 
-theorem decode_reg_iff {t : Nat} : (∃ n, decode t = .reg n) ↔ t < 16 := by
-  unfold decode REGISTER_NUM; split <;> simp [*]
-
 mutual
 theorem spillEdgeSpill_complete (rs : Bool) : ∀ (T : Tree) (p : Nat), 16 ≤ p →
     spillEdgeSpill rs T = false → ∀ a b, (a, b) ∈ T.edges p → ¬ bad a b
@@ -302,14 +301,14 @@ theorem lowerAll_eq (ops : List AOp) : lowerAll ops = ops.flatMap lower := rfl
 
 /-- T2 for x86-64, in terms of location codes. -/
 theorem parallelMoves_correct_codes {V : Type} (pm : PMap) (hs : Sorted pm) (hf : Functional pm)
-    (hu : ∀ x ∈ allNodes pm, usable x = true) :
+    (hu : ∀ s t, Edge pm s t → usable s = true ∧ usable t = true) :
     ∃ code, parallelMovesX86 pm = .ok code ∧ ∀ m : MState V,
       (∀ s t, Edge pm s t → rdN (runCode code m) t = rdN m s) ∧
       (∀ x, usable x = true → (∀ s, ¬ Edge pm s x) → rdN (runCode code m) x = rdN m x) := by
   obtain ⟨ops, hops, hfin⟩ := backend_correct (S := MState V) rdN okN cell bad lower exec
     containsSpillEdge containsSpillEdge_complete sim_step
     (fun msg m => by simp [lower, runWith, exec]) pm hs.keysNodup hs.targetsNodup hf
-    (fun x hx => (okN_iff_usable x).mpr (hu x hx))
+    (fun s t e => ⟨(okN_iff_usable s).mpr (hu s t e).1, (okN_iff_usable t).mpr (hu s t e).2⟩)
   refine ⟨lowerAll ops, by simp [parallelMovesX86, hops], ?_⟩
   intro m
   obtain ⟨h1, h2⟩ := hfin m
